@@ -3,8 +3,8 @@
 // WorkUnit built on the repository's BaseWorkUnit, registered through the same cmdline mechanism as work-command.
 // It exists for the C13 "in-process units" case (DESIGN.md 4.2, engine E3).
 //
-//	- work-inproc:
-//	    worktype: inproc
+//   - work-inproc:
+//     worktype: inproc
 //
 // Payload (stdin of the unit): "<chunks> <delay-ms>\n"; the unit writes that many lines "inproc-chunk-<i>\n" to its
 // stdout file through workceptor.STDoutWriter (which records the size in the status file after every write).
@@ -61,6 +61,8 @@ func (u *inprocUnit) run(ctx context.Context, chunks int, delay time.Duration) {
 
 			return
 		}
+		// progress report through the unit object (updates the daemon's in-memory status as well)
+		u.UpdateBasicStatus(workceptor.WorkStateRunning, "Running in process", out.Size())
 	}
 	u.UpdateBasicStatus(workceptor.WorkStateSucceeded, "done", out.Size())
 }
@@ -77,6 +79,7 @@ func (u *inprocUnit) Start() error {
 	u.done = make(chan struct{})
 	u.mu.Unlock()
 	go u.run(ctx, chunks, time.Duration(delay)*time.Millisecond)
+	go u.MonitorLocalStatus() // as command units do: reload the record whenever the status file changes
 
 	return nil
 }
